@@ -242,7 +242,7 @@ impl Check for C16Check {
         vec!["symbol keys within one container are distinct".into(), "negative indexes are only exercised through the instructions (the runtime never passes them to the data interface)".into()]
     }
     fn phases(&self, tier: Tier) -> Vec<Phase> {
-        vec![Phase::exhaustive("small-lists", 1 + 6 + 36 + 216 + 1296).with_chunk(32), Phase::random("random-lists", tier.pick(20_000, 600_000), 160).with_min_tape(16).with_chunk(256)]
+        vec![Phase::exhaustive("small-lists", 1 + 6 + 36 + 216 + 1296).with_chunk(32), Phase::random("random-lists", tier.pick(80_000, 1_000_000), 160).with_min_tape(16).with_chunk(256)]
     }
     fn run(&self, _tier: Tier, phase: usize, input: &Input, ctx: &mut CaseCtx) {
         match (phase, input) {
